@@ -11,6 +11,7 @@ CONSTANTS
   JBoxes = {"none", "special"}
   JunkNames = {"Junk"}
   QuarSet = {FALSE, TRUE}
+  WatchSet = {TRUE}
   EnvActs = {"Delete", "Login"}
   DelAccts = {"b"}
   Faults = TRUE
